@@ -223,7 +223,15 @@ class Run:
         elif replay_fn is not None:
             fn = lambda: replay_fn(o, o.result["model"] or {}, self.seed)
         if fn is not None:
-            found, err = run_forked(fn, timeout=300)
+            # one native replay per (obligation family, instance): paths of one instance share the oracle, unless it replays the solver's model
+            import re as _re
+            key = (_re.sub(r"/path\d+", "", o.name), json.dumps(o.instance, sort_keys=True, default=str))
+            memo = self.__dict__.setdefault("_replay_memo", {})
+            if key in memo and memo[key][0] is not None:
+                found, err = memo[key]
+            else:
+                found, err = run_forked(fn, timeout=300)
+                memo[key] = (found, err)
             if err:
                 rec["replay_error"] = err  # a crash / failure of the replay harness is not a violation by itself
         rec["native_failing_input"] = found
